@@ -43,6 +43,7 @@ type Frame struct {
 	deferOrd  map[*ssa.Defer]int
 	curRec    *loopRec // innermost invariant-cut loop around the block being executed
 	rhsToLhs  map[ast.Expr]string
+	doneChans map[string]string // channel term returned by ctx.Done() -> ctx term
 }
 
 func (e *Eng) typeID(t types.Type) int {
